@@ -201,7 +201,7 @@ RULES = ['assign_const_scalar', 'assign_const_elem', 'assign_string_elem', 'assi
          'return_wrong_type', 'undeclared_var', 'undeclared_func', 'redeclare_local', 'shadow_local', 'nested_array',
          'array_of_empty', 'index_empty_literal', 'bad_cast', 'bad_operand', 'bool_int_equality', 'spec_on_string',
          'const_vla', 'literal_ok_byte', 'byte_arith_ok', 'mutable_to_const_param_ok', 'string_to_const_bytes_ok',
-         'mixed_array_literal_ok', 'shadow_global_ok', 'redeclare_over_global', 'shadow_over_global']
+         'mixed_array_literal_ok', 'shadow_global_ok', 'redeclare_over_global', 'shadow_over_global', 'spec_operand_types']
 
 
 def build_mutant(rule, site, draw, ck):
@@ -341,6 +341,23 @@ def build_mutant(rule, site, draw, ck):
         if not globs:
             return None
         return [Block([Decl(INT, False, pick(globs), I(1))])]
+    if rule == 'spec_operand_types':
+        # the right operand of ?? is implicitly coerced to the left one's type (no explicit-cast conversions)
+        if not func.name.startswith('@') or (id(block), idx) in getattr(ck, 'try_sites', ()):
+            return None
+        bools = by(lambda v: v.ty == BOOL)
+        pairs = []
+        if bytes_ and ints:
+            pairs += [(V(pick(bytes_)), V(pick(ints))), (V(pick(bytes_)), Bin('+', V(pick(ints)), I(1))), (V(pick(ints)), V(pick(bytes_)))]
+        if bools:
+            pairs += [(V(pick(bools)), I(1)), (V(pick(bools)), Lit('char', 65, None)), (I(1), V(pick(bools)))]
+        if ints:
+            pairs += [(V(pick(ints)), Lit('bool', True, None)), (V(pick(ints)), Lit('string', b's', None)), (V(pick(ints)), I(3)),
+                      (Lit('char', 66, None), V(pick(ints))), (Lit('char', 66, None), I(300) if False else I(7))]
+        if not pairs:
+            return None
+        l, r = pairs[draw(st.integers(0, len(pairs) - 1))]
+        return [ExprStmt(Call('write', [Spec(l, r)]))]
     if rule in ('redeclare_over_global', 'shadow_over_global'):
         # a local that legally shadows a global, then a second declaration of the same name (same scope / nested block /
         # body of a for loop whose variable has that name): the global's existence must not excuse the second one
